@@ -274,6 +274,11 @@ def compare_model(o, ans):
     L = o["L"]
     if ans == "bad-op" or not isinstance(ans, dict) or "broken" in ans:
         return ["model answered %r" % (ans,)]
+    if "crash" in ans:
+        if o["s1_exc"] is not None and exc_key(o["s1_exc"]) == "crash:traverse_ir.py:invoke:AssertionError":
+            return []
+        return ["model: reference outside any type (traversal assertion); real: exc=%r errors=%r" % (
+            o["s1_exc"], o["s1_errors"][:2])]
     if "errors" in ans:
         vis, hid = model_errors(ans["errors"], L)
         if not vis:
@@ -1435,6 +1440,8 @@ FINDING_INPUTS = {
          "imp.emb": "struct Baz:\n  0 [+1]  UInt  q\n"},
     "crash:traverse_ir.py:invoke:AssertionError":
         {"m.emb": "[requires: Foo.BAR]\nenum Foo:\n  BAR = 1\n"},
+    "crash:synthetics.py:_add_anonymous_aliases:AssertionError":
+        {"m.emb": "struct Foo:\n  0 [+4]  struct  bar:\n    0 [+1]  bits:\n      0 [+1]  Flag  xx\n"},
 }
 
 
@@ -1508,6 +1515,8 @@ def evaluate(chk, cases, model_ok, label):
 def classify(o, ans):
     if not isinstance(ans, dict):
         return "model-bad"
+    if "crash" in ans:
+        return "reference-outside-type-crash"
     if "errors" in ans:
         kinds = sorted(set(e[0] for e in ans["errors"]))
         return "rejected:" + "+".join(kinds)
